@@ -358,7 +358,10 @@ def run_deviation(hist, chooser, burst=2, stall=False, srvstall=False) -> dict:
         rig.world.run_default_until_idle()
         rig.check(None, ('burst',) + tuple(h[0] for h in tail))
         dn = rig.dn
-        if len(dn.children) > max(dn._max_children, 0) and len(dn.children) > len(before['children']):
+        # (when the limit itself changes inside the burst the order of that change and the joins is the schedule's:
+        # children accepted under the old limit are legitimate)
+        if len(dn.children) > max(dn._max_children, 0) and len(dn.children) > len(before['children']) \
+                and not any(h[0] == 'stats' for h in tail):
             rig.add('too-many-children', f"burst {tail}: {len(dn.children)} children, maximum {dn._max_children}",
                     'C13:too-many-children')
         return {'violations': list(rig.violations), 'obs': rig.canon(), 'transitions': rig.world.loop.batches,
